@@ -21,6 +21,11 @@ pub fn check(sc: &Scenario, res: &RunResult) -> Vec<Violation> {
             let file_ok = !sc.faults.iter().any(|f| f.trig.kind == CallKind::Open);
             let peek_ok = k.world.threads.iter().find(|t| t.tid == opts.blamed).map(|t| !t.foreign_tracer && !t.zombie).unwrap_or(false);
             let reachable = |p: u64, l: u64| (vm_ok && k.accessible_run(p, l, false) == l) || ((file_ok || peek_ok) && k.accessible_run(p, l, true) == l);
+            // the window around the crash instruction pointer (and a stack) that cannot be read is left
+            // out; it does not cost the whole request
+            if undisturbed && e.contains("SectionThreadListError(CopyFromProcessError") {
+                out.push(v("C07", "unreadable-memory-fails-request", format!("the request failed on memory of the thread list that cannot be read: {}", e.chars().take(200).collect::<String>())));
+            }
             if undisturbed && e.contains("SectionAppMemoryError") && !opts.app_memory.is_empty() && opts.app_memory.iter().all(|(p, l)| *l > 0 && reachable(*p, *l)) {
                 out.push(v("C07", "app-region-request-failed", format!("every requested region lies wholly in the target's memory, but the request failed: {}", e.chars().take(200).collect::<String>())));
             }
